@@ -40,6 +40,26 @@ func runC09(c *Ctx) {
 		c.obMustUnder("refused before greeting", f, []string{"reply:5xx"}, aHeloEmpty)
 	}
 
+	// ... and not advertised either
+	if f := c.A.Func("(*Conn).handleGreet"); f != nil {
+		caps, _ := extractCaps(c, f)
+		nAuth := 0
+		for _, ce := range caps {
+			if ce.name != "AUTH <mechs>" {
+				continue
+			}
+			nAuth++
+			ok := false
+			for _, cd := range ce.conds {
+				if cd == "(*Conn).authAllowed(param0) == true" {
+					ok = true
+				}
+			}
+			R.Ob(fmt.Sprintf("(*Conn).handleGreet/AUTH advertised only where allowed#%d", nAuth), ce.pos, ok, fmt.Sprintf("AUTH is listed under %v: it is advertised on a connection where authentication is not allowed", ce.conds))
+		}
+		R.Ob("(*Conn).handleGreet/AUTH capability found", c.P.Pos(f.Pos()), nAuth >= 1, "no AUTH capability recognised in handleGreet")
+	}
+
 	ruleAuthAllowedDef(c)
 
 	R.Rule("R-auth-once", "E3+E2", "didAuth becomes true only after the mechanism reported completion with a nil error and after the 235 reply; it is cleared only by the TLS upgrade", 3)
